@@ -7,7 +7,7 @@ from .check_core import mc_states, LABS
 from .runner import Check
 
 
-IOLABS = ["int", "zero", "int_rev", "neg", "big", "str", "uni"]
+IOLABS = ["int", "zero", "int_rev", "neg", "big", "str", "uni", "cross0"]
 
 
 def _decorate(g, L, known, rng, lines, grid):
@@ -101,6 +101,33 @@ def long_history(rng):
     return calls
 
 
+def many_runs_history(rng):
+    """2-3 nodes; one pair with 10-14 disjoint presence runs (a second pair with a few), instants up to ~60"""
+    NoEnd = core.NoEnd
+    calls, t = [], 0
+    for _ in range(rng.randint(10, 14)):
+        ln = rng.choice([1, 2, 3, 3, 4])
+        calls.append({"op": "add_interaction", "u": 1, "v": 2, "t": t, "e": (t + ln) if (ln > 1 or rng.random() < 0.5) else NoEnd})
+        t += ln + rng.randint(1, 3)
+    t2 = rng.randint(0, 5)
+    for _ in range(rng.randint(1, 4)):
+        calls.append({"op": "add_interaction", "u": rng.choice([2, 3]), "v": rng.choice([1, 3]), "t": t2, "e": t2 + rng.randint(1, 6)})
+        t2 += rng.randint(7, 15)
+    return calls
+
+
+def many_events_history(rng):
+    """30 nodes, every pair given five closed runs by five bulk calls: more than 4,096 events in the stream"""
+    n = 30
+    ps = [[a, b] for a in range(1, n + 1) for b in range(a + 1, n + 1)]
+    calls, t = [], 0
+    for _ in range(5):
+        rng.shuffle(ps)
+        calls.append({"op": "add_interactions_from", "ps": [list(p) for p in ps], "t": t, "e": t + rng.choice([1, 2])})
+        t += rng.choice([3, 4])
+    return calls
+
+
 DERIVED_INVS = {"C06": ["InvSlice", "InvSliceSlice"], "C16": ["InvConvert"], "C09": ["InvSnapshotsRoundTrip"],
                 "C10": ["InvInteractionsRoundTrip"], "C11": ["InvJsonRoundTrip"]}
 
@@ -166,6 +193,17 @@ def run(prop, tier, seed):
         calls = long_history(rng)
         jobs.append((rng.randrange(1 << 30), prop, rng.random() < 0.5, calls,
                      rng.choice(IOLABS if prop in ("C09", "C10", "C11") else LABS[:5]), [1, 2, 3], drivers.grid_of(calls), tier))
+    # many separate presence runs on one pair (algorithms that index or bisect the timeline)
+    for _ in range(3 if tier == "quick" else 40):
+        calls = many_runs_history(rng)
+        jobs.append((rng.randrange(1 << 30), prop, rng.random() < 0.5, calls,
+                     rng.choice(IOLABS if prop in ("C09", "C10", "C11") else LABS[:5]), [1, 2, 3], drivers.grid_of(calls), tier))
+    if prop == "C10":
+        # an event stream of more than 4,096 events
+        for _ in range(1 if tier == "quick" else 4):
+            calls = many_events_history(rng)
+            jobs.append((rng.randrange(1 << 30), prop, rng.random() < 0.5, calls, rng.choice(["int", "str"]), list(range(1, 31)),
+                         drivers.grid_of(calls), tier))
     chk.run_jobs(job_derive, jobs, "der", chunk=200)
     if prop == "C09":
         # 'u v t e' rows read as the span t..e-1 (clause C09_c, spec/ParsersSpec.tla)
